@@ -319,6 +319,8 @@ impl RustWalk {
                             w.stmts.push(format!("println!(\"size:{i} {{}}\", ::core::mem::size_of::<{name}>());"));
                             w.stmts.push(format!("println!(\"align:{i} {{}}\", ::core::mem::align_of::<{name}>());"));
                         }
+                        // names bindgen maps to builtin types by name have no alias item
+                        None if ["size_t", "ssize_t", "intptr_t", "uintptr_t", "ptrdiff_t", "int8_t", "uint8_t", "int16_t", "uint16_t", "int32_t", "uint32_t", "int64_t", "uint64_t", "wchar_t"].contains(&name.as_str()) => {}
                         None => w.problems.push(("rust-type-missing".into(), format!("decl {i}: no item for typedef `{name}`"))),
                         Some(_) => {
                             w.stmts.push(format!("println!(\"size:{i} {{}}\", ::core::mem::size_of::<{name}>());"));
